@@ -7,7 +7,7 @@
    4. the event log is a write-only prefix                (run_log_prefix ...), hence
       every later input behaves as on a fresh parser      (ris_then_fresh) *)
 Require Import Tac ListN Utf8 Attrs Cell Row Grid Screen Vte Perform Parser.
-Require Import Utf8Lemmas VteInv VteChunk Chunking GridInv ScreenInv EventSpec.
+Require Import Utf8Lemmas VteInv VteChunk Pend Chunking GridInv ScreenInv EventSpec.
 Open Scope N_scope.
 
 (* ------------------------------------------------------------------ *)
@@ -307,14 +307,20 @@ Proof.
   rewrite H2. reflexivity.
 Qed.
 
+(* ESC c ends in an ASCII byte: with nothing held back before, it goes to vte as it is and nothing is
+   held back afterwards *)
+Lemma ris_tail : incomplete_tail [27; 99] = 0.
+Proof. reflexivity. Qed.
+
 Theorem ris_process : forall p q,
+  pend p = [] ->
   pwf (vt p) -> process p [27; 99] = Ok q ->
   let s0 := fresh_screen (grows (g (scr p))) (gcols (g (scr p))) (sb_cap (g (scr p))) in
   screen_new (grows (g (scr p))) (gcols (g (scr p))) (sb_cap (g (scr p))) = Ok s0 /\
   vt q = p_init /\ scr q = s0 /\ resizing q = resizing p /\
   log q = log p ++ ris_events (vt p).
 Proof.
-  intros p q Hw H s0. unfold process in H. rewrite (ris_advance (vt p) Hw) in H.
+  intros p q Hpd Hw H s0. rewrite (process_clean p _ Hpd ris_tail) in H. rewrite (ris_advance (vt p) Hw) in H.
   rewrite perform_all_app, perform_ris_pre in H. cbn [bind perform_all perform] in H.
   unfold do_esc in H. change (99 =? 55) with false in H. change (99 =? 56) with false in H.
   change (99 =? 61) with false in H. change (99 =? 62) with false in H.
@@ -328,21 +334,23 @@ Qed.
 
 (* the whole result in one equation *)
 Corollary ris_process_eq : forall p q,
+  pend p = [] ->
   pwf (vt p) -> process p [27; 99] = Ok q ->
   q = mkParser p_init (fresh_screen (grows (g (scr p))) (gcols (g (scr p))) (sb_cap (g (scr p))))
-               (log p ++ ris_events (vt p)) (resizing p).
+               (log p ++ ris_events (vt p)) (resizing p) [].
 Proof.
-  intros p q Hw H. destruct (ris_process p q Hw H) as (_ & H1 & H2 & H3 & H4).
-  destruct q as [v s l rz]. cbn [vt scr log resizing] in *. subst. reflexivity.
+  intros p q Hpd Hw H. destruct (ris_process p q Hpd Hw H) as (_ & H1 & H2 & H3 & H4).
+  pose proof (process_clean_pend p _ q Hpd ris_tail H) as H5.
+  destruct q as [v s l rz pd]. cbn [vt scr log resizing pend] in *. subst. reflexivity.
 Qed.
 
 (* it never panics on a screen with at least one row, in particular on [parser_ok] *)
-Theorem ris_process_total : forall p, pwf (vt p) -> 1 <= grows (g (scr p)) ->
+Theorem ris_process_total : forall p, pend p = [] -> pwf (vt p) -> 1 <= grows (g (scr p)) ->
   process p [27; 99] =
   Ok (mkParser p_init (fresh_screen (grows (g (scr p))) (gcols (g (scr p))) (sb_cap (g (scr p))))
-               (log p ++ ris_events (vt p)) (resizing p)).
+               (log p ++ ris_events (vt p)) (resizing p) []).
 Proof.
-  intros p Hw Hr. unfold process. rewrite (ris_advance (vt p) Hw).
+  intros p Hpd Hw Hr. rewrite (process_clean p _ Hpd ris_tail). rewrite (ris_advance (vt p) Hw).
   rewrite perform_all_app, perform_ris_pre. cbn [bind perform_all perform].
   unfold do_esc. change (99 =? 55) with false. change (99 =? 56) with false.
   change (99 =? 61) with false. change (99 =? 62) with false.
@@ -353,81 +361,102 @@ Qed.
 Theorem ris_process_ok : forall p, parser_ok p -> exists q, process p [27; 99] = Ok q /\ parser_ok q.
 Proof. intros p H. apply process_ok. exact H. Qed.
 
+(* with bytes held back (an incomplete utf-8 sequence before the ESC): vte still ends exactly in its
+   initial state and nothing is held back any more; what the held-back bytes do before the reset
+   depends on the vte state (in Ground: U+FFFD is printed, then the screen is reset) *)
+Theorem ris_process_any : forall p q, parser_ok p -> process p [27; 99] = Ok q ->
+  vt q = p_init /\ pend q = [].
+Proof.
+  intros p q [_ I] H.
+  assert (Z : incomplete_tail (pend p ++ [27; 99]) = 0).
+  { change [27; 99] with ([27] ++ [99]). rewrite app_assoc. apply incomplete_tail_app_ascii. lia. }
+  split.
+  - rewrite (process_vt p _ q H). rewrite (advance_eq_advance' _ _ (k04a_shielded p _ I)).
+    unfold delivered. rewrite (hd_part_zero _ Z).
+    pose proof (pi_pwf p I) as W.
+    pose proof (advance'_app (vt p) (pend p) [27; 99] W) as APP.
+    pose proof (advance'_pwf (vt p) (pend p) W) as W1.
+    destruct (advance' (vt p) (pend p)) as [v1 x]. cbn [fst] in W1.
+    rewrite <- (advance_eq_advance' v1 [27; 99]) in APP by (apply k04a_lead; [exact W1|right; unfold contb; cbn [hd]; lia]).
+    rewrite (ris_advance v1 W1) in APP. destruct APP as (z & -> & _). reflexivity.
+  - rewrite (process_pend p _ q H). unfold held. exact (tl_part_zero _ Z).
+Qed.
+
 (* ------------------------------------------------------------------ *)
 (* 4. The event log is a write-only prefix                             *)
 (* ------------------------------------------------------------------ *)
 
 Definition with_log (p : parser) (l : list event) : parser :=
-  mkParser (vt p) (scr p) l (resizing p).
+  mkParser (vt p) (scr p) l (resizing p) (pend p).
 
 Definition relog (l : list event) (r : res parser) : res parser :=
   match r with Ok q => Ok (with_log q (l ++ log q)) | Panic k => Panic k end.
 
-Lemma process_log v s l rz bs :
-  process (mkParser v s l rz) bs = relog l (process (mkParser v s [] rz) bs).
+Lemma process_log v s l rz pd bs :
+  process (mkParser v s l rz pd) bs = relog l (process (mkParser v s [] rz pd) bs).
 Proof.
-  unfold process. cbn [vt scr log resizing].
-  destruct (advance v bs) as [v1 acts].
+  unfold process. cbn [vt scr log resizing pend]. cbv zeta.
+  destruct (advance v _) as [v1 acts].
   destruct (perform_all rz s acts []) as [[s1 evs]|k]; cbn [bind relog]; reflexivity.
 Qed.
 
-Lemma step_log v s l rz o :
-  step (mkParser v s l rz) o = relog l (step (mkParser v s [] rz) o).
+Lemma step_log v s l rz pd o :
+  step (mkParser v s l rz pd) o = relog l (step (mkParser v s [] rz pd) o).
 Proof.
   destruct o as [bs|bs|r c|k]; cbn [step].
   - apply process_log.
   - unfold write. rewrite process_log.
-    destruct (process (mkParser v s [] rz) bs) as [q|k]; cbn [bind relog]; reflexivity.
-  - unfold with_scr. cbn [vt scr log resizing].
+    destruct (process (mkParser v s [] rz pd) bs) as [q|k]; cbn [bind relog]; reflexivity.
+  - unfold with_scr. cbn [vt scr log resizing pend].
     destruct (screen_set_size s r c) as [s1|k]; cbn [bind relog]; [|reflexivity].
-    unfold with_log. cbn [vt scr log resizing]. rewrite app_nil_r. reflexivity.
-  - unfold with_scr, relog, with_log. cbn [vt scr log resizing]. rewrite app_nil_r. reflexivity.
+    unfold with_log. cbn [vt scr log resizing pend]. rewrite app_nil_r. reflexivity.
+  - unfold with_scr, relog, with_log. cbn [vt scr log resizing pend]. rewrite app_nil_r. reflexivity.
 Qed.
 
-Theorem run_log : forall ops v s l rz,
-  Parser.run (mkParser v s l rz) ops = relog l (Parser.run (mkParser v s [] rz) ops).
+Theorem run_log : forall ops v s l rz pd,
+  Parser.run (mkParser v s l rz pd) ops = relog l (Parser.run (mkParser v s [] rz pd) ops).
 Proof.
-  induction ops as [|o rest IH]; intros v s l rz; cbn [Parser.run].
-  - unfold relog, with_log. cbn [vt scr log resizing]. rewrite app_nil_r. reflexivity.
+  induction ops as [|o rest IH]; intros v s l rz pd; cbn [Parser.run].
+  - unfold relog, with_log. cbn [vt scr log resizing pend]. rewrite app_nil_r. reflexivity.
   - rewrite step_log.
-    destruct (step (mkParser v s [] rz) o) as [[v1 s1 l1 rz1]|k]; cbn [bind relog]; [|reflexivity].
-    unfold with_log at 1. cbn [vt scr log resizing].
-    rewrite (IH v1 s1 (l ++ l1) rz1). rewrite (IH v1 s1 l1 rz1).
-    destruct (Parser.run (mkParser v1 s1 [] rz1) rest) as [q|k]; cbn [relog]; [|reflexivity].
-    unfold with_log. cbn [vt scr log resizing]. rewrite app_assoc. reflexivity.
+    destruct (step (mkParser v s [] rz pd) o) as [[v1 s1 l1 rz1 pd1]|k]; cbn [bind relog]; [|reflexivity].
+    unfold with_log at 1. cbn [vt scr log resizing pend].
+    rewrite (IH v1 s1 (l ++ l1) rz1 pd1). rewrite (IH v1 s1 l1 rz1 pd1).
+    destruct (Parser.run (mkParser v1 s1 [] rz1 pd1) rest) as [q|k]; cbn [relog]; [|reflexivity].
+    unfold with_log. cbn [vt scr log resizing pend]. rewrite app_assoc. reflexivity.
 Qed.
 
 (* the form asked for: same vte state, same screen, same policy; logs differ by the prefix *)
-Theorem run_log_prefix_ok : forall ops v s l rz v' s' l' rz',
-  Parser.run (mkParser v s l rz) ops = Ok (mkParser v' s' l' rz') <->
-  exists e, Parser.run (mkParser v s [] rz) ops = Ok (mkParser v' s' e rz') /\ l' = l ++ e.
+Theorem run_log_prefix_ok : forall ops v s l rz pd v' s' l' rz' pd',
+  Parser.run (mkParser v s l rz pd) ops = Ok (mkParser v' s' l' rz' pd') <->
+  exists e, Parser.run (mkParser v s [] rz pd) ops = Ok (mkParser v' s' e rz' pd') /\ l' = l ++ e.
 Proof.
-  intros ops v s l rz v' s' l' rz'. rewrite run_log. split.
-  - destruct (Parser.run (mkParser v s [] rz) ops) as [[v1 s1 l1 rz1]|k]; cbn [relog]; [|discriminate].
-    unfold with_log. cbn [vt scr log resizing]. intros H. inv H. eauto.
+  intros ops v s l rz pd v' s' l' rz' pd'. rewrite run_log. split.
+  - destruct (Parser.run (mkParser v s [] rz pd) ops) as [[v1 s1 l1 rz1 pd1]|k]; cbn [relog]; [|discriminate].
+    unfold with_log. cbn [vt scr log resizing pend]. intros H. inv H. eauto.
   - intros (e & -> & ->). reflexivity.
 Qed.
 
-Theorem run_log_prefix_panic : forall ops v s l rz k,
-  Parser.run (mkParser v s l rz) ops = Panic k <-> Parser.run (mkParser v s [] rz) ops = Panic k.
+Theorem run_log_prefix_panic : forall ops v s l rz pd k,
+  Parser.run (mkParser v s l rz pd) ops = Panic k <-> Parser.run (mkParser v s [] rz pd) ops = Panic k.
 Proof.
-  intros ops v s l rz k. rewrite run_log.
-  destruct (Parser.run (mkParser v s [] rz) ops) as [q|k']; cbn [relog]; split; intros H;
+  intros ops v s l rz pd k. rewrite run_log.
+  destruct (Parser.run (mkParser v s [] rz pd) ops) as [q|k']; cbn [relog]; split; intros H;
     try discriminate; exact H.
 Qed.
 
 (* two parsers that differ only in their logs *)
-Corollary run_log_any : forall ops v s l1 l2 rz,
-  match Parser.run (mkParser v s l1 rz) ops, Parser.run (mkParser v s l2 rz) ops with
-  | Ok q1, Ok q2 => vt q1 = vt q2 /\ scr q1 = scr q2 /\ resizing q1 = resizing q2 /\
+Corollary run_log_any : forall ops v s l1 l2 rz pd,
+  match Parser.run (mkParser v s l1 rz pd) ops, Parser.run (mkParser v s l2 rz pd) ops with
+  | Ok q1, Ok q2 => vt q1 = vt q2 /\ scr q1 = scr q2 /\ resizing q1 = resizing q2 /\ pend q1 = pend q2 /\
                     exists e, log q1 = l1 ++ e /\ log q2 = l2 ++ e
   | Panic k1, Panic k2 => k1 = k2
   | _, _ => False
   end.
 Proof.
-  intros ops v s l1 l2 rz. rewrite (run_log ops v s l1 rz), (run_log ops v s l2 rz).
-  destruct (Parser.run (mkParser v s [] rz) ops) as [q|k]; cbn [relog]; [|reflexivity].
-  unfold with_log. cbn [vt scr log resizing]. repeat split. eauto.
+  intros ops v s l1 l2 rz pd. rewrite (run_log ops v s l1 rz pd), (run_log ops v s l2 rz pd).
+  destruct (Parser.run (mkParser v s [] rz pd) ops) as [q|k]; cbn [relog]; [|reflexivity].
+  unfold with_log. cbn [vt scr log resizing pend]. repeat split. eauto.
 Qed.
 
 (* ------------------------------------------------------------------ *)
@@ -435,6 +464,7 @@ Qed.
 (* ------------------------------------------------------------------ *)
 
 Theorem ris_then_fresh : forall p q,
+  pend p = [] ->
   pwf (vt p) -> process p [27; 99] = Ok q ->
   exists pf,
     parser_new (grows (g (scr p))) (gcols (g (scr p))) (sb_cap (g (scr p))) (resizing p) = Ok pf /\
@@ -451,23 +481,24 @@ Theorem ris_then_fresh : forall p q,
       | Panic k => Parser.run q ops = Panic k
       end.
 Proof.
-  intros p q Hw H.
-  destruct (ris_process p q Hw H) as (E0 & _ & _ & _ & E4).
-  pose proof (ris_process_eq p q Hw H) as Eq.
+  intros p q Hpd Hw H.
+  destruct (ris_process p q Hpd Hw H) as (E0 & _ & _ & _ & E4).
+  pose proof (ris_process_eq p q Hpd Hw H) as Eq.
   set (s0 := fresh_screen (grows (g (scr p))) (gcols (g (scr p))) (sb_cap (g (scr p)))) in *.
-  exists (mkParser p_init s0 [] (resizing p)).
+  exists (mkParser p_init s0 [] (resizing p) []).
   split; [unfold parser_new; rewrite E0; reflexivity|].
   split; [rewrite Eq; reflexivity|].
   split; [reflexivity|].
   split; [exact E4|].
   intros ops. rewrite Eq. cbn [log].
-  rewrite (run_log ops p_init s0 (log p ++ ris_events (vt p)) (resizing p)).
-  destruct (Parser.run (mkParser p_init s0 [] (resizing p)) ops) as [qf|k]; cbn [relog]; [|reflexivity].
-  eexists; split; [reflexivity|]. unfold with_log. cbn [vt scr log resizing]. auto.
+  rewrite (run_log ops p_init s0 (log p ++ ris_events (vt p)) (resizing p) []).
+  destruct (Parser.run (mkParser p_init s0 [] (resizing p) []) ops) as [qf|k]; cbn [relog]; [|reflexivity].
+  eexists; split; [reflexivity|]. unfold with_log. cbn [vt scr log resizing pend]. auto.
 Qed.
 
 (* under the invariant the ESC c itself cannot panic, so the statement is unconditional *)
 Corollary ris_then_fresh_ok : forall p,
+  pend p = [] ->
   pwf (vt p) -> parser_ok p ->
   exists q pf,
     process p [27; 99] = Ok q /\
@@ -482,18 +513,19 @@ Corollary ris_then_fresh_ok : forall p,
       | Panic k => Parser.run q ops = Panic k
       end.
 Proof.
-  intros p Hw Hok. destruct (ris_process_ok p Hok) as (q & H & _).
-  destruct (ris_then_fresh p q Hw H) as (pf & E1 & E2 & E3 & E4 & E5).
+  intros p Hpd Hw Hok. destruct (ris_process_ok p Hok) as (q & H & _).
+  destruct (ris_then_fresh p q Hpd Hw H) as (pf & E1 & E2 & E3 & E4 & E5).
   exists q, pf. split; [exact H|]. split; [exact E1|].
   rewrite E2 at 1 2 3. unfold with_log. cbn [vt scr resizing]. auto 10.
 Qed.
 
 (* the RIS itself reports nothing: from a state between sequences the log is unchanged *)
 Corollary ris_silent : forall p q,
+  pend p = [] ->
   pwf (vt p) -> vst (vt p) = Ground -> partial (vt p) = [] ->
   process p [27; 99] = Ok q -> log q = log p.
 Proof.
-  intros p q Hw Hg Hp H. destruct (ris_process p q Hw H) as (_ & _ & _ & _ & E).
+  intros p q Hpd Hw Hg Hp H. destruct (ris_process p q Hpd Hw H) as (_ & _ & _ & _ & E).
   rewrite E, ris_events_nil', app_nil_r; [reflexivity|congruence|exact Hp].
 Qed.
 
@@ -518,6 +550,7 @@ Qed.
 Theorem ris_reachable : forall r c cap rz ops p0 p,
   1 <= r <= MAXDIM -> 1 <= c <= MAXDIM ->
   parser_new r c cap rz = Ok p0 -> Forall op_ok ops -> Parser.run p0 ops = Ok p ->
+  pend p = [] ->
   exists q pf,
     process p [27; 99] = Ok q /\
     parser_new (grows (g (scr p))) (gcols (g (scr p))) (sb_cap (g (scr p))) (resizing p) = Ok pf /\
@@ -531,14 +564,14 @@ Theorem ris_reachable : forall r c cap rz ops p0 p,
       | Panic k => Parser.run q ops' = Panic k
       end.
 Proof.
-  intros r c cap rz ops p0 p Hr Hc E0 Hops Hrun.
+  intros r c cap rz ops p0 p Hr Hc E0 Hops Hrun Hpd.
   assert (W0 : pwf (vt p0)).
   { unfold parser_new in E0. bind_inv E0. inv E0. exact pwf_init. }
   assert (O0 : parser_ok p0).
   { destruct (parser_new_ok r c cap rz Hr Hc) as (p0' & E & O). congruence. }
   destruct (run_ok ops p0 O0 Hops) as (p' & E & O).
   assert (p' = p) by congruence. subst p'.
-  apply ris_then_fresh_ok; [eapply run_pwf_parser; eassumption|exact O].
+  apply ris_then_fresh_ok; [exact Hpd|eapply run_pwf_parser; eassumption|exact O].
 Qed.
 
 (* ------------------------------------------------------------------ *)
